@@ -415,8 +415,13 @@ int main(int argc, char** argv) {
       evEmit(J().str("e", "TickBegin").num("t", vclockNowMs()));
       ctx.refresh();
       ctx.bumpCurrentTick();
+      // sometimes every init() of this tick reports failure (the engine only constructs objects inside a tick when it
+      // builds the instance of a newly matching cgroup): the instance is still the configured ruleset, complete
+      bool initsFail = useCg && r.chance(12);
+      if (initsFail) setInitReportsFailure(true);
       engine->prerun(ctx);
       engine->runOnce(ctx);
+      if (initsFail) setInitReportsFailure(false);
       evEmit(J().str("e", "TickEnd").num("t", vclockNowMs()));
       auto st = Oomd::getStats();
       evEmit(J().str("e", "Stat").num("added", st[Oomd::CoreStats::kNumDropInAdds])
